@@ -635,6 +635,12 @@ def run(ctx) -> None:
 from ..selftest import V  # noqa: E402
 
 SELFTEST = [
+    V("mul_array places the array's i-th size at position i (seeded C16-m6)", ER,
+      "        reshape = tuple((self.data.shape[i] if i in axes else 1) for i in range(self.data.ndim))\n",
+      "        reshape = [1] * self.data.ndim\n        for i, d in enumerate(other.shape):\n            reshape[i] = d\n", "fire", "R16.3"),
+    V("mul_array fills the broadcast shape at position axes[i]", ER,
+      "        reshape = tuple((self.data.shape[i] if i in axes else 1) for i in range(self.data.ndim))\n",
+      "        reshape = [1] * self.data.ndim\n        for i, d in enumerate(other.shape):\n            reshape[axes[i]] = d\n", "silent", "R16.3"),
     V("E_titles no longer padded to the number of energy axes (seeded C16-m4)", ER,
       "        if self.N_energies <= len(E_titles):\n            self.E_titles = E_titles[:self.N_energies]\n        else:\n            self.E_titles = E_titles + [\"???\"] * (self.N_energies - len(E_titles))\n",
       "        self.E_titles = E_titles[:self.N_energies]\n", "fire", "R16.1"),
